@@ -30,6 +30,16 @@ impl<'a> PreReleaseProcessor<'a> {
     }
 
     fn is_var_set(&self, var: &Var) -> bool {
+        // A label finalized without a number leaves its value unset but has already been
+        // placed in the schema; it must still count as used, or a later repetition of the
+        // label is pushed a second time and schema validation fails (a panic in From)
+        if self
+            .schema
+            .extra_core()
+            .contains(&Component::Var(var.clone()))
+        {
+            return true;
+        }
         match var {
             Var::PreRelease => self.vars.pre_release.is_some(),
             Var::Epoch => self.vars.epoch.is_some(),
